@@ -604,6 +604,7 @@ class Simulation:
                 new_dict[key] = value
 
         new.invalidated_caches = set(self.invalidated_caches)
+        new._data_storage_dir = None
 
         new.persons = self.persons.clone(new)
         setattr(new, new.persons.entity.key, new.persons)
